@@ -21,6 +21,9 @@ def sample(sc, res):
                 frames_on_bus=sum(1 for e in res.trace if e[2] == 'tx'))
 
 
+oracle = oracle_tp.check_exactly_once
+
+
 def run(out, tier, rng, work):
     out.rule = ('2-4 real stacks under virtual time; 1-6 concurrent transfers on distinct (SA,DA) pairs, both directions, sizes on all '
                 'residues mod 7 incl. 0,1,7,8,9,1784,1785, window pairs from {1,2,3,7,8,127,254,255,random}, per-receiver latencies '
